@@ -12,7 +12,17 @@ with concurrent.futures.ProcessPoolExecutor(max_workers=16) as ex:
     res = list(ex.map(selftest._run_seed, jobs))
 exp = {}
 msgs = {}
+_old_pins = json.load(open(os.path.join(V, "seeded", "EXPECTED.json"))) if os.path.exists(os.path.join(V, "seeded", "EXPECTED.json")) else {}
 for (_, sid, pid, status, msg) in res:
+    if status == "skipped":
+        # the patch no longer applies to this tree (the tree moved on, e.g. a repair touched the same lines): the pin
+        # recorded when it did apply is kept; the self-test skips such an entry
+        if sid in _old_pins and pid in _old_pins[sid]:
+            exp.setdefault(sid, {})[pid] = _old_pins[sid][pid]
+            msgs.setdefault(sid, {})[pid] = "(patch does not apply to the current tree; outcome recorded on the tree it was written for)"
+        else:
+            print("PROBLEM", sid, pid, status, msg)
+        continue
     if not status.startswith("observed:"):
         print("PROBLEM", sid, pid, status, msg)
         continue
@@ -24,8 +34,11 @@ for sid, per in exp.items():
         m = json.load(open(mp))
         m["checks_reporting_violation"] = sorted(p for p, o in per.items() if o == "violation")
         m["checks_ending_in_analysis_error"] = sorted(p for p, o in per.items() if o == "refused")
-        m["first_findings"] = {p: ["finding rule=" + msgs[sid][p]] for p, o in per.items() if o == "violation"}
-        m["analysis_errors"] = {p: [msgs[sid][p]] for p, o in per.items() if o == "refused"}
+        if not any("does not apply" in (msgs[sid].get(p) or "") for p in per):
+            m["first_findings"] = {p: ["finding rule=" + msgs[sid][p]] for p, o in per.items() if o == "violation"}
+            m["analysis_errors"] = {p: [msgs[sid][p]] for p, o in per.items() if o == "refused"}
+        else:
+            m["note"] = "the patch no longer applies to the current /repo HEAD (a later repair touched the same lines); the outcomes are those recorded on the tree it was written for"
         json.dump(m, open(mp, "w"), indent=1)
 old = {}
 ep = os.path.join(V, "seeded", "EXPECTED.json")
